@@ -319,11 +319,49 @@ class PathCtx:
         self.pc.append(cond)
         self.solver.add(cond)
 
+    def _nonlinear(self, cond):
+        """Does the condition (or anything assumed so far) multiply / divide two non-constant terms?"""
+        if getattr(self, "_nl", False):
+            return True
+        stack, seen = [cond], set()
+        while stack:
+            x = stack.pop()
+            if x.get_id() in seen or not z3.is_app(x):
+                continue
+            seen.add(x.get_id())
+            k = x.decl().kind()
+            if k in (z3.Z3_OP_MUL, z3.Z3_OP_DIV):
+                nonconst = [c for c in x.children() if not (z3.is_int_value(c) or z3.is_rational_value(c))]
+                if len(nonconst) >= 2 or (k == z3.Z3_OP_DIV and not (z3.is_int_value(x.arg(1)) or z3.is_rational_value(x.arg(1)))):
+                    self._nl = True
+                    return True
+            stack.extend(x.children())
+        return False
+
     def _feasible(self, cond):
+        if self._nonlinear(cond):
+            # nonlinear mixed Int/Real arithmetic: nlsat on the integer relaxation is the primary oracle.
+            # unsat there => unsat here (sound pruning); sat there => treated as feasible (over-approximation:
+            # an infeasible path that is explored only yields vacuous obligations)
+            from .relax import Relaxer
+
+            if not hasattr(self, "_relaxer"):
+                self._relaxer = Relaxer()
+            st = self._relaxer.status(self.pc, cond)
+            if st == "unsat":
+                return False
+            if st == "sat":
+                return True
         self.solver.push()
         self.solver.add(cond)
         r = self.solver.check()
         self.solver.pop()
+        if r == z3.unknown:
+            # nonlinear mixed Int/Real: ask nlsat about the integer relaxation (unsat there => unsat here)
+            from .relax import relaxed_unsat
+
+            if relaxed_unsat(list(self.pc) + [cond], 1500):
+                return False
         return r != z3.unsat  # unknown counts as feasible
 
     def decide(self, cond, why=""):
@@ -1416,12 +1454,25 @@ class Interp:
             # floor division is a function of its operands: one (q, r) pair per operand pair and path
             key = (z3.simplify(x).get_id(), z3.simplify(y).get_id())
             cache = ctx.__dict__.setdefault("divmod_cache", {})
+            fcache = ctx.__dict__.setdefault("floor_cache", {})
+            fkey = None
+            y = z3.simplify(y)
+            if not both_int and (z3.is_rational_value(y) or z3.is_int_value(y)) and z3.is_true(z3.simplify(y > 0)):
+                # division by a positive constant: x // c == floor(x / c), shared with every floor() of that term
+                ft = z3.simplify(as_real(x) / as_real(y))
+                fkey = ft.get_id()
             if key in cache:
                 q, r, _keep = cache[key]
+            elif fkey is not None and fkey in fcache:
+                q = fcache[fkey][0]
+                r = z3.simplify(as_real(x) - z3.ToReal(q) * as_real(y))
+                cache[key] = (q, r, (x, y))
             else:
                 q = ctx.fresh("q", "int")
                 r = ctx.fresh("r", "int" if both_int else "real")
                 cache[key] = (q, r, (x, y))
+                if fkey is not None:
+                    fcache[fkey] = (q, ft)
                 qq = q if both_int else z3.ToReal(q)
                 ctx.assume(x == qq * y + r)
                 ctx.assume(z3.If(y > 0, z3.And(r >= 0, r < y), z3.And(r <= 0, r > y)))
